@@ -102,6 +102,23 @@ def run(ctx) -> None:
                           loc=fn.loc(call))
             elif in_config:
                 n_cfg += 1
+    # ... "non-ASCII text is preserved exactly": a file that is not UTF-8 is refused, not read under another encoding and written
+    # back as UTF-8 - no `.decode(<other encoding>)` / `encoding=<other>` on the rewrite path
+    rw_reach = effects.reachable_functions([f"{e_}.rewrite_files" for e_ in ENGINES] + [f"{e_}.diff" for e_ in ENGINES])
+    for fq_ in sorted(rw_reach):
+        f_ = prog.function(fq_)
+        for c_ in ast.walk(f_.node):
+            if not isinstance(c_, ast.Call):
+                continue
+            enc_ = None
+            if isinstance(c_.func, ast.Attribute) and c_.func.attr == "decode":
+                enc_ = c_.args[0] if c_.args else _kw(c_, "encoding")
+            elif unparse(c_.func) in ("str", "codecs.decode") and len(c_.args) >= 2:
+                enc_ = c_.args[1]
+            if enc_ is not None and const_str(enc_) is not None and const_str(enc_).lower().replace("_", "-") not in ("utf-8", "utf8", "ascii"):
+                ctx.bad("R1", f"{fq_}: file content is decoded as {const_str(enc_)}", f"`{unparse(c_)[:80]}`: a file that is not UTF-8 is accepted under another encoding and then written as UTF-8: "
+                        f"every non-ASCII byte outside the match changes (a `coding:` cookie becomes wrong)", loc=f_.loc(c_), witness={"file": "legacy.py in latin-1 with `©`"},
+                        what=f"{fq_}: content is decoded as UTF-8 only")
     ctx.floor("R1", "text open() sites on the rewrite/diff path", n_rw, 4)
     ctx.floor("R1", "text open() sites in config", n_cfg, 3)
 
